@@ -39,6 +39,39 @@ impl Condvar {
 
 pub(crate) use loom::thread;
 
+/// `std::sync::OnceLock` with a scheduling point at every operation: the cell itself is std's
+/// (its operations are atomic), a loom mutex taken around each of them lets loom interleave
+/// other threads between any two operations on the same cell.
+pub(crate) struct OnceLock<T> {
+    gate: Mutex<()>,
+    cell: std::sync::OnceLock<T>,
+}
+
+impl<T> OnceLock<T> {
+    pub fn new() -> Self {
+        Self {
+            gate: Mutex::new(()),
+            cell: std::sync::OnceLock::new(),
+        }
+    }
+
+    pub fn get(&self) -> Option<&T> {
+        let _gate = self.gate.lock().unwrap();
+        self.cell.get()
+    }
+
+    pub fn set(&self, value: T) -> Result<(), T> {
+        let _gate = self.gate.lock().unwrap();
+        self.cell.set(value)
+    }
+}
+
+impl<T> Default for OnceLock<T> {
+    fn default() -> Self {
+        Self::new()
+    }
+}
+
 /// Channels with the disconnection semantic of std (loom's own mpsc never reports a hang-up,
 /// and the worker loops of the cluster writer end on hang-up).
 mod chan {
